@@ -308,6 +308,26 @@ func c14EmptyIfaceStores(c *core.Ctx) map[*types.Var][]types.Type {
 				}
 			}
 			return ts
+		case *ssa.Parameter:
+			// the value is handed in by the callers (e.g. a constructor helper): follow every static call site
+			fn := x.Parent()
+			idx := -1
+			for i, p := range fn.Params {
+				if p == x {
+					idx = i
+				}
+			}
+			var ts []types.Type
+			if idx >= 0 {
+				for _, g := range c.RepoFunctions() {
+					for _, ci := range core.Calls(g) {
+						if ci.Common().StaticCallee() == fn && idx < len(ci.Common().Args) {
+							ts = append(ts, concrete(ci.Common().Args[idx], depth+1)...)
+						}
+					}
+				}
+			}
+			return ts
 		case *ssa.Call:
 			var ts []types.Type
 			for _, cf := range c.Callees(x) {
